@@ -23,8 +23,10 @@ META = dict(
          "transaction is rebuilt by replaying the calls on account.SignStandardTransaction / SignMultiSignTransaction / "
          "NewSchnorrAggregateAccount + crypto.AggregateSignatures with real keys and must get the same verdict from the node's "
          "checkTransactionSignature -> RunPrograms.",
-    note="Wallets hold one key each (SignMultiSignTransaction picks the first script key the wallet holds); n <= 3; address and "
-         "amount string codecs are not covered (pure encode/decode fidelity).",
+    note="Wallets hold one key each (SignMultiSignTransaction picks the first script key the wallet holds); n <= 3. Amount and "
+         "address strings: Codec.tla is a decision table over the boundaries of the amount format (sign, 1..11 digit integer "
+         "parts, fractions, smallest / largest Fixed64) and over every issued address prefix x code-hash patterns; the base58 / "
+         "checksum arithmetic itself is not specified (round trip, length and first character are).",
     technique="TLA+ model (TLC exhaustive, invariants WalletComplete/Sound) + per-case replay through the account package and "
               "the node's signature check",
 )
@@ -72,11 +74,27 @@ def run(chk):
                  any(x.get("kind") == "violation" and x.get("key", "").startswith("C37:accepts:selftest") for x in recs))
     chk.selftest("replay: tampered wallet case expected accepted -> violation",
                  any(x.get("kind") == "violation" and x.get("key", "").startswith("C37:wallet-signed-rejected") for x in recs))
+    # amount and address strings (Codec.tla decision tables)
+    cbin = vf.go_build("codec")
+    rc = vf.tlc("Edge", "Codec", "c.cfg", cfg_text="SPECIFICATION Spec\nINVARIANTS TextShape\nACTION_CONSTRAINT Emit\nCHECK_DEADLOCK FALSE\n",
+                workers=1, timeout=600)
+    vf.tlc_ok(rc, "Codec table")
+    chk.add_tlc(rc, "Codec.tla: amount format boundaries and address prefixes x hash patterns")
+    cb, _ = vf.behaviours(rc, dedupe_prefixes=False)
+    pc = os.path.join(vf.scratch(), "codec.jsonl")
+    vf.write_json_lines(pc, cb)
+    recs, _ = vf.run_driver(cbin, ["run", pc])
+    chk.absorb(recs, "amount / address strings: text and round trip on common.Fixed64 and common.Uint168")
+    badc = json.loads(json.dumps(next(b for b in cb if b[0]["act"] == "Amount" and b[0]["args"]["neg"])))
+    badc[0]["exp"]["text"] = badc[0]["exp"]["text"][1:]
+    vf.write_json_lines(pc + ".bad", [badc])
+    recs, _ = vf.run_driver(cbin, ["run", pc + ".bad"])
+    chk.selftest("codec: expected amount text without its sign", any(x.get("kind") == "violation" for x in recs))
     chk.assumptions += [
         "ideal cryptography in the model; one key per wallet; n <= 3 keys per multisig script, aggregated Schnorr keys of 1 and "
         "2 holders; <= 2 programs per transaction; one change of the signed content",
         "the byte classes of a change: tx version byte, tx type byte, payload version byte (TransferAsset has an empty "
         "payload), nonce attribute, input (txid / index / sequence), output (value / program hash), lock time",
-        "address-string and amount-string codecs are not covered",
+        "address strings: round trip, length and first character per issued prefix; the base58check arithmetic is not modelled",
     ]
     return chk.finish(exhaustive=False)
